@@ -18,6 +18,7 @@ CONSTANTS B = 4
   MaxTotal = 0
   MaxDepth = 1
   Wide = FALSE
+  WideSpaces = {}
   NotdefOn = FALSE
   MaxRect = 0
 INVARIANTS LookupOK
